@@ -36,14 +36,16 @@ def auth : GenDesc :=
       | [u, p] => .ok ⟨s2b "Auth", [u, p]⟩
       | _ => .error .unreachable }
 
+def setChecks : List (Cond × Lit) :=
+  [(.and (.has 0) (.has 1), .nxxx),
+   (.and (.has 7) (.or (.or (.or (.has 3) (.has 4)) (.has 5)) (.has 6)), .syntax)]
+
 def set : GenDesc :=
   { dom := .atLeast 2, pre := [aStr, aSds], tail := .scan setOpts (.lit .syntax), ctors := [s2b "Set"],
-    finLits := [.nxxx, .syntax],
+    finLits := [.nxxx, .syntax], checks := setChecks,
     fin := fun ts tv => match ts, tv with
       | [k, v], .seen s =>
-        if s.has 0 && s.has 1 then .error (.lit .nxxx)
-        else if s.has 7 && (s.has 3 || s.has 4 || s.has 5 || s.has 6) then .error (.lit .syntax)
-        else .ok (mkSet k v (s.opt1 3) (s.opt1 4) (s.opt1 5) (s.opt1 6) (s.has 0) (s.has 1) (s.has 2) (s.has 7))
+        finWithChecks setChecks (fun s => mkSet k v (s.opt1 3) (s.opt1 4) (s.opt1 5) (s.opt1 6) (s.has 0) (s.has 1) (s.has 2) (s.has 7)) s
       | _, _ => .error .unreachable }
 
 def setex (px : Bool) : GenDesc :=
@@ -54,23 +56,25 @@ def setex (px : Bool) : GenDesc :=
         else .ok (mkSet k v t .none .none .none false false false false)
       | _ => .error .unreachable }
 
+def expireChecks : List (Cond × Lit) :=
+  [(.and (.has 0) (.or (.or (.has 1) (.has 2)) (.has 3)), .expireNx), (.and (.has 2) (.has 3), .expireGtLt)]
+
 def expire (ctor : Bytes) : GenDesc :=
   { dom := .atLeast 2, pre := [aStr, aInt], tail := .scan expireOpts (.fmt .unsupportedOption), ctors := [ctor],
-    finLits := [.expireNx, .expireGtLt],
+    finLits := [.expireNx, .expireGtLt], checks := expireChecks,
     fin := fun ts tv => match ts, tv with
       | [k, t], .seen s =>
-        if s.has 0 && (s.has 1 || s.has 2 || s.has 3) then .error (.lit .expireNx)
-        else if s.has 2 && s.has 3 then .error (.lit .expireGtLt)
-        else .ok ⟨ctor, [k, t, .b (s.has 0), .b (s.has 1), .b (s.has 2), .b (s.has 3)]⟩
+        finWithChecks expireChecks (fun s => ⟨ctor, [k, t, .b (s.has 0), .b (s.has 1), .b (s.has 2), .b (s.has 3)]⟩) s
       | _, _ => .error .unreachable }
+
+def getexChecks : List (Cond × Lit) := [(.countGt [0, 1, 2, 3, 4] 1, .syntax)]
 
 def getex : GenDesc :=
   { dom := .atLeast 1, pre := [aStr], tail := .scan getexOpts (.lit .syntax), ctors := [s2b "GetEx"],
-    finLits := [.syntax],
+    finLits := [.syntax], checks := getexChecks,
     fin := fun ts tv => match ts, tv with
       | [k], .seen s =>
-        if [s.has 0, s.has 1, s.has 2, s.has 3, s.has 4].count true > 1 then .error (.lit .syntax)
-        else .ok ⟨s2b "GetEx", [k, s.opt1 0, s.opt1 1, s.opt1 2, s.opt1 3, .b (s.has 4)]⟩
+        finWithChecks getexChecks (fun s => ⟨s2b "GetEx", [k, s.opt1 0, s.opt1 1, s.opt1 2, s.opt1 3, .b (s.has 4)]⟩) s
       | _, _ => .error .unreachable }
 
 def lmove : GenDesc :=
@@ -212,13 +216,14 @@ def stub (text : Bytes) : GenDesc :=
   { dom := .any, pre := [], tail := .ignore, ctors := [s2b "Unknown"],
     fin := fun _ _ => .ok ⟨s2b "Unknown", [.s text]⟩ }
 
+def luaSetChecks : List (Cond × Lit) := [(.and (.has 0) (.has 1), .nxxx)]
+
 def luaSet : GenDesc :=
   { dom := .atLeast 2, pre := [aStr, aSds], tail := .scan luaSetOpts (.fmt .luaUnknownSet), ctors := [s2b "Set"],
-    finLits := [.nxxx],
+    finLits := [.nxxx], checks := luaSetChecks,
     fin := fun ts tv => match ts, tv with
       | [k, v], .seen s =>
-        if s.has 0 && s.has 1 then .error (.lit .nxxx)
-        else .ok (mkSet k v (s.opt1 3) (s.opt1 4) .none .none (s.has 0) (s.has 1) (s.has 2) false)
+        finWithChecks luaSetChecks (fun s => mkSet k v (s.opt1 3) (s.opt1 4) .none .none (s.has 0) (s.has 1) (s.has 2) false) s
       | _, _ => .error .unreachable }
 
 def luaExpire : GenDesc :=
